@@ -11,7 +11,7 @@ SUFFIX = {"Grid1D": "1D", "CylindricalGrid1D": "Cylindrical1D", "SphericalGrid1D
           "CylindricalGrid3D": "Cylindrical3D", "SphericalGrid3D": "Spherical3D"}
 AXN = ["AX", "AY", "AZ"]
 HEADER = ("From Coq Require Import ZArith QArith Qcanon List String Bool.\n"
-          "From PFV Require Import OField KOps Grid Ops CorrLib Exec Limiters.\nImport ListNotations.\n"
+          "From PFV Require Import OField KOps Grid Ops Boundary Solver CorrLib Exec Limiters.\nImport ListNotations.\n"
           "Local Open Scope nat_scope.\n"
           "Definition eps0 : Qc := eps_default QcOps.\nDefinition fs0 : Qc -> Qc := fsign QcOps (eps1_default QcOps).\n")
 
